@@ -478,6 +478,9 @@ func init() {
 			}
 			data := c17Workbook(sheets, sst)
 			path := tmpFile(r, ".xlsx", data)
+			if valid && bi%10 == 0 {
+				c03OneReaderOf(r, "xlsx", path)
+			}
 			rd, err := xlsx.Open(path)
 			if err != nil {
 				r.Check(!valid, "open-failed", "generated workbook does not open: "+err.Error(), nil)
